@@ -388,7 +388,7 @@ func (e *Eng) regInitAuto(r string) {
 		e.regInit(r, "(Array Int Bool)")
 	case "G.$wrapped":
 		e.regInit(r, "Bool")
-	case "BL", "BR":
+	case "BL", "BR", "ENCW":
 		e.regInit(r, "(Array Int Int)")
 	}
 }
